@@ -6,6 +6,23 @@ import os
 HERE = os.path.dirname(os.path.dirname(os.path.abspath(__file__)))
 
 CLAIMS = {
+    "C05": dict(
+        text="Static decomposition of the property: (1) row-locality of all 8 _predict_contexts bodies - every "
+             "generator draw reachable from the per-row loop is traced, through deepcopy provenance and nested "
+             "holders, to the abstract generator object it advances, which must have been created by "
+             "create_rng(seeds[index]) in the same iteration; cross-row objects may only be mutated as output slot, "
+             "generator rebinding, under a full reset (kill analysis on that fit call) or row-invariantly; (2) the "
+             "4 row-partitioned Parallel sites slice consistently, pass the lower bound as offset, reduce in "
+             "submission order and draw one seed per row before partitioning; (3) shared-memory task groups write "
+             "only under their own key over duplicate-free iterables. Holds for every n_jobs, backend, partition "
+             "and schedule because those do not appear in the decided clauses. Reports the two confirmed defects "
+             "(TreeBandit and LinTS-under-neighbourhood draw from non-row generators) as known findings.",
+        note="Trusted: joblib result order and sharedmem=threads; partition sizes sum to n (integer arithmetic, "
+             "assumed); deterministic numerical kernels; externals table.",
+        technique="abstract interpretation with heap provenance of generator objects (allocation stamps per loop "
+                  "iteration, deepcopy origin chains), kill analysis for worker-local resets, AST rules for the "
+                  "Parallel idiom, key-disjointness of shared-memory task writes",
+        ref="DESIGN.md section 3, C05"),
     "C04": dict(
         text="Static exclusion of every source of run-to-run, process-to-process and instance-to-instance "
              "variation: who-may-call over resolved imports (no global RNG/time/uuid/id/hash/getpid; generators "
